@@ -32,7 +32,7 @@ func abs(x int) int {
 func applyUnifiedDiff(repo, patch string) (map[string][]byte, error) {
 	out := map[string][]byte{}
 	lines := strings.Split(patch, "\n")
-	var file string
+	var file, lastOld string
 	var content []string
 	flush := func() {
 		if file != "" {
@@ -43,11 +43,38 @@ func applyUnifiedDiff(repo, patch string) (map[string][]byte, error) {
 	for i < len(lines) {
 		l := lines[i]
 		switch {
+		case strings.HasPrefix(l, "--- "):
+			lastOld = strings.TrimPrefix(strings.TrimPrefix(l, "--- "), "a/")
+			i++
 		case strings.HasPrefix(l, "+++ "):
 			flush()
 			name := strings.TrimPrefix(l, "+++ ")
 			name = strings.TrimPrefix(name, "b/")
+			if name == "/dev/null" {
+				// a deleted file: what is left of it declares nothing
+				file = filepath.Join(repo, lastOld)
+				b, err := os.ReadFile(file)
+				if err != nil {
+					return nil, err
+				}
+				pkg := ""
+				for _, ln := range strings.Split(string(b), "\n") {
+					if strings.HasPrefix(ln, "package ") {
+						pkg = ln
+						break
+					}
+				}
+				out[file] = []byte(pkg + "\n")
+				file = ""
+				i++
+				continue
+			}
 			file = filepath.Join(repo, name)
+			if lastOld == "/dev/null" {
+				content = []string{""}
+				i++
+				continue
+			}
 			b, err := os.ReadFile(file)
 			if err != nil {
 				return nil, err
